@@ -241,6 +241,8 @@ def main(argv):
         c.broken.append("build of the repo working tree / hx_probing failed: " + blog[-800:])
         return c.finish(rule="build failed")
     c.proofs()
+    if c.tier == "thorough":
+        coqchk(c)
     drv, dlog = build_driver("C13")
     impl = hx_bin("hx_probing")
 
@@ -290,6 +292,12 @@ def main(argv):
                                                      "how": "echo '<history>' | hx_probing   (ops: F<key>,<value> FindOrInsert, I Insert, L<key> Find, U UnsafeMutableFind+set value)"})
             else:
                 c.violation("set-semantics: " + why, {"history": line_of(m, i, ops)[:3000], "why": why})
+
+    # --- memory safety of the same histories: ASan + UBSan build of the harness (an out-of-bounds bucket access
+    #     in Double / the probe loops is a violation with the history as replay)
+    if not c.violations:
+        sub = [l for (b, m, i, ops), l in zip(cases, lines) if not b.startswith("exhaustive/F^")]
+        asan_lines(c, "hx_probing", sub if c.tier == "thorough" else sub[:1500] + sub[-200:], "(bucket array = exact-size heap block)")
 
     # --- large histories: the real table against std::map inside the harness (set abstraction only,
     #     justified by the refinement theorems); crosses the 2 MiB malloc -> mmap transition of HugeRealloc
